@@ -5,7 +5,9 @@
    Hashes are modelled by the byte streams / values they are taken over:
      - path hash of a tree  = `stream`  (fs/hash.go:174: a file is its content; a directory is the
        concatenation of the contents of its files in sorted walk order, NAMES NOT INCLUDED)
-     - source hash          = list of (path, stream) over IterSources (core/utils.go:121)
+     - source hash          = list of (path, stream) over IterSources (core/utils.go:121), followed by the streams
+                              of the outputs of the tools WITHOUT their paths (incrementality.go:122-130; the entry of a
+                              tool carries the empty path: h.Write of nothing)
      - rule hash            = `t_defkey` (the target's BUILD entry without comments; C08 is separate);
                               the post-build rule hash of a target that the build can modify (output_dirs)
                               = (t_defkey, the outputs the target has at that moment)
@@ -13,6 +15,10 @@
    Targets with output_dirs (the e2e command `outdir`) go through the two-phase check of buildTarget
    (build_step.go:226-260): needsBuilding(postBuild=false) on the declared outputs, then the outputs named
    in the stored metadata are added to the target, then needsBuilding(postBuild=true) on all of them.
+   Filegroups may have DIRECTORY sources (filegroup.go:65: RemoveAll + recursive link when the hashes differ); genrules
+   may use other targets as tools (command UseTool: cat $TOOLS $SRCS); the command CatAll globs the temporary
+   directory, which prepareDirectory(tmpDir, remove = true) (build_step.go:577) recreates empty before every build:
+   the temporary directory is a function of the sources and is no part of the persistent state.
    Not modelled: the cache for output_dirs targets (they never use it here), dependents of output_dirs
    targets (they would see the discovered outputs), post-build functions.
    No proofs here. *)
@@ -106,6 +112,8 @@ Inductive cmd :=
 | ListNames         (* for a directory source: find . | sort; for a file source: its path *)
 | Const (arg : str) (* echo arg > every out *)
 | Fail              (* exit 1 *)
+| CatAll (dir : str) (* (cd $PKG_DIR && cat every regular *.txt file there, in glob order) > $OUTS; dir = $PKG_DIR *)
+| UseTool           (* cat $TOOLS $SRCS > $OUTS *)
 | OutDir.           (* output_dirs = ["_o"]: cp every (file) source into _o by base name; echo fixed > first of $OUTS *)
 
 Inductive kind :=
@@ -115,7 +123,8 @@ Inductive kind :=
 
 Inductive src :=
 | SFile (f : str)        (* a file of the target's package *)
-| SLabel (l : str).      (* another target, "//pkg:name" *)
+| SLabel (l : str)       (* another target, "//pkg:name" *)
+| STool (l : str).       (* tools = [l]: another target whose outputs the command reaches through $TOOLS; not in $SRCS *)
 
 Record target := mkT {
   t_label : str;         (* "//pkg:name" *)
@@ -142,12 +151,14 @@ Fixpoint file_srcs (l : list src) : list str :=
   | [] => []
   | SFile f :: r => f :: file_srcs r
   | SLabel _ :: r => file_srcs r
+  | STool _ :: r => file_srcs r
   end.
 Fixpoint label_srcs (l : list src) : list str :=
   match l with
   | [] => []
   | SFile _ :: r => label_srcs r
   | SLabel x :: r => x :: label_srcs r
+  | STool x :: r => x :: label_srcs r       (* a tool is a dependency like any other *)
   end.
 
 (* BuildTarget.Outputs(): sorted; a filegroup outputs its sources under the same names *)
@@ -169,7 +180,17 @@ Definition src_paths (r : repo) (t : target) (x : src) : list path :=
                 | Some d => map (fun o => (true, out_rel d o)) (outputs d)
                 | None => []
                 end
+  | STool _ => []
   end.
+(* the outputs of the tools (BuildInput.FullPaths of every tool, in declaration order) *)
+Definition tool_paths (r : repo) (t : target) : list path :=
+  flat_map (fun x => match x with
+                     | STool l => match find_target (r_targets r) l with
+                                  | Some d => map (fun o => (true, out_rel d o)) (outputs d)
+                                  | None => []
+                                  end
+                     | _ => []
+                     end) (t_srcs t).
 (* $SRCS: AllSourcePaths, NOT de-duplicated (core/build_env.go:92) *)
 Definition all_paths (r : repo) (t : target) : list path := flat_map (src_paths r t) (t_srcs t).
 (* IterSources: de-duplicated by temporary path, first occurrence wins (core/utils.go:128) *)
@@ -230,6 +251,39 @@ Definition read (r : repo) (st : store) (p : path) : option node :=
   if fst p then option_map e_node (s_outs st (snd p))
   else option_map (File false) (alookup (snd p) (r_files r)).
 
+(* a source DIRECTORY of the repository: everything below rel, as a tree *)
+Fixpoint strip_prefix (pre x : str) : option str :=
+  match pre, x with
+  | [], _ => Some x
+  | a :: pre', b :: x' => if N.eqb a b then strip_prefix pre' x' else None
+  | _ :: _, [] => None
+  end.
+Fixpoint split_acc (acc p : str) : list str :=
+  match p with
+  | [] => [acc]
+  | c :: r => if N.eqb c slash then acc :: split_acc [] r else split_acc (acc ++ [c]) r
+  end.
+Definition split_path (p : str) : list str := split_acc [] p.
+Fixpoint tree_ins (segs : list str) (c : str) (es : list (str * node)) : list (str * node) :=
+  match segs with
+  | [] => es
+  | [x] => ins_entry x (File false c) es
+  | x :: rest => ins_entry x (Dir (tree_ins rest c (match alookup x es with Some (Dir d) => d | _ => [] end))) es
+  end.
+Definition below (r : repo) (rel : str) : list (str * str) :=
+  flat_map (fun fc => match strip_prefix (rel ++ [slash]) (fst fc) with Some rest => [(rest, snd fc)] | None => [] end) (r_files r).
+Definition dir_node (r : repo) (rel : str) : option node :=
+  match below r rel with
+  | [] => None
+  | sub => Some (Dir (fold_left (fun es fc => tree_ins (split_path (fst fc)) (snd fc) es) sub []))
+  end.
+(* the source a filegroup links: a file, or a directory *)
+Definition fg_src (r : repo) (rel : str) : option node :=
+  match alookup rel (r_files r) with
+  | Some c => Some (File false c)
+  | None => dir_node r rel
+  end.
+
 Fixpoint gather (rd : path -> option node) (l : list path) : option (list (path * node)) :=
   match l with
   | [] => Some []
@@ -241,9 +295,25 @@ Fixpoint gather (rd : path -> option node) (l : list path) : option (list (path 
 
 Definition key_of (ins : list (path * node)) : skey := map (fun pn => (fst pn, stream (snd pn))) ins.
 
-(* sourceHash (incrementality.go:112): for src in IterSources: h(path hash of src), src *)
+(* the inputs of a tool enter hashes and commands without their paths *)
+Definition nopath : path := (true, []).
+Definition anon_ins (ins : list (path * node)) : list (path * node) := map (fun pn => (nopath, snd pn)) ins.
+
+(* sourceHash (incrementality.go:112): for src in IterSources: h(path hash of src), src; then for every output of
+   every tool: h(path hash) - nothing else *)
 Definition source_key (r : repo) (st : store) (t : target) : option skey :=
-  option_map key_of (gather (read r st) (iter_sources r t)).
+  match gather (read r st) (iter_sources r t), gather (read r st) (tool_paths r t) with
+  | Some a, Some b => Some (key_of a ++ key_of (anon_ins b))
+  | _, _ => None
+  end.
+
+(* what the command of t reads: $SRCS with their temporary paths, then the outputs of the tools (no temporary path:
+   tools stay where they are) *)
+Definition gather_in (r : repo) (st : store) (t : target) : option (list (path * node)) :=
+  match gather (read r st) (all_paths r t), gather (read r st) (tool_paths r t) with
+  | Some a, Some b => Some (a ++ anon_ins b)
+  | _, _ => None
+  end.
 
 (* readRuleHashFromXattrs (incrementality.go:294): every output must carry the same record *)
 Definition rec_at (st : store) (rel : str) : option rkey :=
@@ -331,6 +401,29 @@ Definition list_names (ins : list (str * node)) : str :=
                       | File _ _ => fst pn ++ nl
                       end) ins.
 
+(* CatAll: the regular files named dir/<base>.txt in the temporary directory (first occurrence of a temporary path
+   wins, prepareSources walks IterSources), in the order of the shell's glob (sorted) *)
+Fixpoint ends_with (suf x : str) : bool :=
+  match x with
+  | [] => match suf with [] => true | _ => false end
+  | _ :: x' => str_eqb suf x || ends_with suf x'
+  end.
+Definition dot_txt : str := [46; 116; 120; 116]%N.
+Definition glob_txt (dir name : str) : bool :=
+  match strip_prefix (match dir with [] => [] | _ => dir ++ [slash] end) name with
+  | Some base => negb (existsb (N.eqb slash) base) && ends_with dot_txt base
+  | None => false
+  end.
+Definition cat_all (dir : str) (ins : list (str * node)) : str :=
+  let es := fold_right (fun pn es => match snd pn with
+                                     | File _ _ => if glob_txt dir (fst pn) then ins_entry (fst pn) (snd pn) es else es
+                                     | Dir _ => es
+                                     end) [] ins in
+  flat_map (fun e => stream (snd e)) es.
+
+(* the inputs of the tools carry no name *)
+Definition is_tool_in (pn : str * node) : bool := match fst pn with [] => true | _ => false end.
+
 Definition copy_entries (ins : list (str * node)) : list (str * node) :=
   fold_left (fun es pn => ins_entry (basename (fst pn)) (snd pn) es) ins [].
 Definition copy_dir (ins : list (str * node)) : node := Dir (copy_entries ins).
@@ -352,6 +445,15 @@ Definition act (k : kind) (outs : list str) (ins : list (str * node)) : option (
   | Genrule ListNames => match outs with [o] => Some [(o, File false (list_names ins))] | _ => None end
   | Genrule (Const a) => Some (map (fun o => (o, File false (a ++ nl))) outs)
   | Genrule Fail => None
+  | Genrule (CatAll dir) => match outs with [o] => Some [(o, File false (cat_all dir ins))] | _ => None end
+  | Genrule UseTool =>
+      match outs with
+      | [o] => match all_files (filter is_tool_in ins ++ filter (fun pn => negb (is_tool_in pn)) ins) with
+               | Some c => Some [(o, File false c)]
+               | None => None
+               end
+      | _ => None
+      end
   | Genrule OutDir => None                        (* see od_cmd: its result is more than the declared outs *)
   | TextFile c => match outs with [o] => Some [(o, File false c)] | _ => None end
   | Filegroup => None
@@ -393,18 +495,19 @@ Definition current_outs (t : target) (st : store) : list (str * node) :=
 Definition fail_run (rn : run) (t : target) (st : store) : run :=
   mkRun st (rn_log rn) (t_label t :: rn_failed rn).
 
-(* filegroupBuilder.Build (filegroup.go:65): keep `to` when it exists with the same hash, else link *)
+(* filegroupBuilder.Build (filegroup.go:65): keep `to` when it exists with the same hash, else RemoveAll(to) and
+   link - recursively when the source is a directory: the old tree is REPLACED, never merged *)
 Definition build_filegroup (r : repo) (t : target) (rn : run) : run :=
   fold_left (fun rn f =>
                let rel := join (t_pkg t) f in
-               match alookup rel (r_files r) with
+               match fg_src r rel with
                | None => fail_run rn t (rn_st rn)
-               | Some c =>
+               | Some n =>
                    let st := rn_st rn in
                    match s_outs st rel with
-                   | Some e => if str_eqb (stream (e_node e)) c then rn
-                               else mkRun (set_out st rel (Some (mkE (File false c) None))) (rn_log rn) (rn_failed rn)
-                   | None => mkRun (set_out st rel (Some (mkE (File false c) None))) (rn_log rn) (rn_failed rn)
+                   | Some e => if str_eqb (stream (e_node e)) (stream n) then rn
+                               else mkRun (set_out st rel (Some (mkE n None))) (rn_log rn) (rn_failed rn)
+                   | None => mkRun (set_out st rel (Some (mkE n None))) (rn_log rn) (rn_failed rn)
                    end
                end) (outputs t) rn.
 
@@ -418,7 +521,7 @@ Definition tmp_ins (ins : list (path * node)) : list (str * node) := map (fun pn
    writeRuleHash, storeInCache; on error Build() removes the outputs (build_step.go:73) *)
 Definition run_action (cache_on : bool) (r : repo) (rn : run) (t : target) (rk : rkey) : run :=
   let st := rn_st rn in
-  match gather (read r st) (all_paths r t) with
+  match gather_in r st t with
   | None => fail_run rn t (remove_outputs t st)
   | Some ins =>
       match act (t_kind t) (outputs t) (tmp_ins ins) with
